@@ -815,3 +815,52 @@ def rule_fresh_storage(ctx: Ctx) -> None:
                              func=f"{cname}.{name}", construct=f"{cname}.{name}: {fields[0].attr} aliases its argument")
     if n < 10:
         raise AnalysisError("own.fresh-storage: too few storage assignments found in the tableau classes")
+
+
+# --------------------------------------------------------------------------- trace.keep-complement
+
+
+def rule_keep_complement(ctx: Ctx, rels: List[str]) -> None:
+    """trace.keep-complement: a method that traces *out* the qubits it is given and delegates to a partial trace taking the qubits to *keep*
+    must hand over the complement of its parameter (all positions not in it), never the parameter itself."""
+    repo = ctx.repo
+    n = 0
+    for rel in rels:
+        m = repo.module(rel)
+        for fn in [f for f in ast.walk(m.tree) if isinstance(f, ast.FunctionDef) and "trace_out" in f.name]:
+            ps = [a.arg for a in fn.args.args if a.arg not in ("self", "cls")]
+            if not ps:
+                continue
+            P = ps[0]
+            defs = {}
+            for a in ast.walk(fn):
+                if isinstance(a, ast.Assign) and len(a.targets) == 1 and isinstance(a.targets[0], ast.Name):
+                    defs[a.targets[0].id] = a.value
+            for c in calls_in(fn):
+                k = get_kw(c, "keep")
+                if k is None:
+                    continue
+                n += 1
+                ctx.touch(m, fn)
+                e = k
+                for _ in range(3):
+                    if isinstance(e, ast.Name) and e.id in defs:
+                        e = defs[e.id]
+                txt = norm(e)
+                names = {x.id for x in ast.walk(e) if isinstance(x, ast.Name)}
+                compl = P in names and (
+                    (isinstance(e, (ast.ListComp, ast.SetComp, ast.GeneratorExp)) and any(
+                        isinstance(t, ast.Compare) and isinstance(t.ops[0], ast.NotIn) and P in {x.id for x in ast.walk(t.comparators[0]) if isinstance(x, ast.Name)}
+                        for g in e.generators for t in g.ifs))
+                    or (isinstance(e, ast.BinOp) and isinstance(e.op, ast.Sub) and P in {x.id for x in ast.walk(e.right) if isinstance(x, ast.Name)})
+                    or any(isinstance(x, ast.BinOp) and isinstance(x.op, ast.Sub) and P in {y.id for y in ast.walk(x.right) if isinstance(y, ast.Name)} for x in ast.walk(e))
+                    or "setdiff1d" in txt or ".difference(" in txt or "np.delete(" in txt)
+                if compl:
+                    ctx.ok("trace.keep-complement", m, c, what=f"{qualname(fn)}: keep = complement of `{P}`")
+                else:
+                    ctx.fail("trace.keep-complement", m, c,
+                             f"{qualname(fn)} is given the qubits to trace out (`{P}`) and passes `{short(k)}` as the qubits to *keep*: "
+                             f"the listed qubits survive and all others are removed (trace_out_qubits([2]) on 3 qubits leaves only qubit 2)",
+                             func=qualname(fn), construct=f"{qualname(fn)}: keep={short(k, 50)}")
+    if n == 0:
+        raise AnalysisError("trace.keep-complement: no trace_out method delegating to a keep= partial trace was found")
